@@ -98,7 +98,7 @@ m = {
  "hooks": {"guard": "verif (Go build tag)",
            "enable": "go test -c -tags verif (hook file /repo/verif_hooks.go carries //go:build verif)",
            "baseline_off_cmd": "cd /repo && GOFLAGS=-mod=mod GOPROXY=off GOSUMDB=off GOTOOLCHAIN=local go test -vet=off -count=1 -json ./...",
-           "source_commits": ["de8bd85", "7055143", "c3d8f5f"], "add_only": True},
+           "source_commits": ["de8bd85", "7055143", "c3d8f5f", "9b94bc5"], "add_only": True},
  "engines": [
    {"name": "S", "path": "/verif/h/server.go", "serves_properties": ["C01","C02","C03","C04","C05","C06","C07","C08","C09","C10","C11","C12","C19"], "kind_free_text": "sequential exhaustive driver: real connection handler over a scripted in-memory net.Conn inside a testing/synctest bubble (exact quiescence and leak detection)"},
    {"name": "L", "path": "/verif/h/live.go", "serves_properties": ["C03","C04","C09","C10","C12"], "kind_free_text": "lock-step driver: real handler goroutine + in-memory duplex connection + synctest.Wait for exact quiescence after each command; real TLS handshakes"},
